@@ -131,6 +131,31 @@ def gen_glyphs(tier: str) -> Iterator[dict]:
                 yield {"id": f"G:{wiring}:{slot}:{off}", "space": "O", "src": common.script([d] + lines, prologue=PRO), "runs": [{"passes": 0}], "geom": [cols, rows]}
 
 
+def _spellings(word: str) -> List[str]:
+    return [word, word.capitalize(), word.upper(), "".join(ch.upper() if i % 2 else ch for i, ch in enumerate(word))]
+
+
+def gen_labels(tier: str) -> Iterator[dict]:
+    """Label arguments (alignment, progress style) are case-insensitive on the host: every spelling of every label in
+    every call that takes one, for a short and an over-long text, on a filled and an empty row."""
+    forms = []
+    for a in ("left", "center", "right"):
+        for sp in _spellings(a):
+            for text in ("ab", "abcdefghijklmnopqrstuvwxyz"):
+                forms += [f'lcd.write(3, 0, "{text}", align="{sp}")', f'lcd.write(0, 1, "{text}", align="{sp}", clear_row=True)', f'lcd.line(1, "{text}", align="{sp}")',
+                          f'lcd.line(0, "{text}", align="{sp}", clear_row=False)', f'lcd.line(1, "{text}", clear_row=True, align="{sp}")',
+                          f'lcd.message("{text}", "q", top_align="{sp}")', f'lcd.message("q", "{text}", bottom_align="{sp}")', f'lcd.message("{text}", "{text}", bottom_align="{sp}", top_align="{sp}")']
+    for st in ("block", "hash", "pipe", "dot"):
+        for sp in _spellings(st):
+            # value * width is a multiple of max_value in each form: the two sides must agree exactly
+            forms += [f'lcd.progress(0, 3, max_value=6, width=8, style="{sp}")', f'lcd.progress(1, 5, 10, width=12, style="{sp}")', f'lcd.progress(1, 2, max_value=4, style="{sp}", label="pg")']
+    for wiring, cols, rows in (("parallel", 16, 2), ("i2c", 20, 4)):
+        for fi, form in enumerate(forms):
+            for bg in (False, True):
+                lines = ([f'lcd.line(0, "{FILL}")', f'lcd.line(1, "{FILL}")'] if bg else []) + [form, 'mon.write("#0")']
+                yield {"id": f"L:{wiring}:{fi}:{int(bg)}", "space": "O", "src": common.script([decl(wiring, cols, rows)] + lines, prologue=PRO), "runs": [{"passes": 0}], "geom": [cols, rows]}
+
+
 def gen_programs(tier: str) -> Iterator[dict]:
     for wiring, cols, rows in (("parallel", 16, 2), ("i2c", 20, 4)):
         ops = program_ops(wiring)
@@ -304,6 +329,7 @@ def generate(tier: str, only=None) -> Iterator[dict]:
         yield from gen_two_lcds(tier)
     if not only or "Y" in only:
         yield from gen_glyphs(tier)
+        yield from gen_labels(tier)
     if not only or "G" in only:
         yield from gen_progress(tier)
         yield from gen_progress_divisible(tier)
